@@ -104,6 +104,7 @@ pub fn net_store_cfg(max_file_size: u64) -> StoreCfg {
         dead_bytes: u64::MAX,
         small_file: 0,
         sync_always: false,
+        sync_interval_ms: 0,
     }
 }
 
